@@ -531,15 +531,15 @@ W2_ESSENTIAL = {
     "C01": ["child-exits", "terminated", "killed", "child-closed-its-exit-handle", "child-stopped-by-sigstop", "child-collected-by-someone-else"],
     "C02": ["output-exceeds-socket-buffer", "child-gone-before-first-read", "startup-input", "engine:fork-mode"],
     "C04": ["alloc-fault", "api-fault", "fault-fired", "restarted-after-failure"],
-    "C05": ["alloc-fault", "api-fault", "fault-fired", "destroy-while-running"],
+    "C05": ["alloc-fault", "api-fault", "fault-fired", "destroy-while-running", "run-api:fault-fired", "run-api:fork option"],
     "C06": ["terminated", "killed", "destroy-while-running", "calls-on-failed-handle"],
     "C03": ["start-succeeded", "fork-mode"],
-    "C08": ["polled-weeks-after-start", "interrupted-by-signal"],
+    "C08": ["polled-weeks-after-start", "interrupted-by-signal", "ticking-clock:entered-within-four-readings-of-deadline"],
     "C18": ["random-long"],
     "C16": ["run-null-sinks-output-exceeds-pipe"],
-    "C15": ["via-cxx-move", "explicit-stop-with-another-policy-first"],
+    "C15": ["via-cxx-move", "explicit-stop-with-another-policy-first", "ticking-clock:entered-within-four-readings-of-deadline"],
     "C12": ["sigchld-ignored+fork-fails", "fork-child-with-parent-nocldwait"],
-    "C09": ["poll-after-eof", "output-piped"],
+    "C09": ["poll-after-eof", "output-piped", "deadline-passed-before-poll", "deadline-passed-during-poll"],
     "C17": ["blocking-probe", "stdin-flood", "startup-input-beyond-capacity", "descendant-holds-stream:blocking", "small-pipes"],
     "C10": ["output-piped", "start-succeeded"],
     "C11": ["start-succeeded", "restarted-after-failure", "child-cannot-read-limit:start-refused"],
